@@ -165,6 +165,16 @@ func vcfArg(v vcfVec, cur Configuration, x Certificate) Configuration {
 		arg.Certificates = append(append([]Certificate{}, cur.Certificates...), x)
 	case "fewer":
 		arg.Certificates = append([]Certificate{}, cur.Certificates[:len(cur.Certificates)-1]...)
+	case "swapped":
+		arg.Certificates = []Certificate{}
+		for k := len(cur.Certificates) - 1; k >= 0; k-- {
+			arg.Certificates = append(arg.Certificates, cur.Certificates[k])
+		}
+	case "dup":
+		arg.Certificates = []Certificate{}
+		for range cur.Certificates {
+			arg.Certificates = append(arg.Certificates, cur.Certificates[0])
+		}
 	}
 	switch v.Pool {
 	case "U":
